@@ -858,11 +858,32 @@ class C13(Spec):
                 c = mk(2)
                 c['variants'] = [mk(1), mk(3)]
                 cur.append(c)
+        # instances of C13_tag_document: pre <name> post over words, the three policies
+        trng = random.Random('thm-C13')
+        W2 = 'abcdefghijklmnopqrstuvwxyzABCDEFGHIJKLMNOPQRSTUVWXYZ0123456789 ,'
+        L = 'abcdefghijklmnopqrstuvwxyzABCDEFGHIJKLMNOPQRSTUVWXYZ'
+        for _ in range(20):
+            pre = trng.choice(L) + ''.join(trng.choice(W2) for _ in range(trng.randint(0, 10)))
+            post = ''.join(trng.choice(W2) for _ in range(trng.randint(0, 10))).rstrip()
+            name = trng.choice('abipqsu') + ''.join(trng.choice('abcdefgh123') for _ in range(trng.randint(0, 4)))
+            src = '%s<%s>%s' % (pre, name, post)
+            for hi in (0, 4, 8, 12):
+                mk = lambda m: H([call(src, safeMode=m + hi, reset=True, htmlReplacement=SENT, cb=False)])
+                c = mk(2)
+                c['variants'] = [mk(1), mk(3)]
+                c['meta'] = {'expect3': ['<p>%s%s</p>' % (pre, post), '<p>%s%s%s</p>' % (pre, SENT, post), '<p>%s&lt;%s&gt;%s</p>' % (pre, name, post)]}
+                cur.append(c)
         return cur + [self._case(rng) for _ in range(sizes(ctx, 1000, 30000) * (3 if boost else 1))]
 
     def oracle(self, ctx, case, impl, variants=()):
         if len(variants) < 2 or not all_ok(impl) or not all_ok(variants[0]) or not all_ok(variants[1]):
             return None
+        exp3 = case.get('meta', {}).get('expect3')
+        if exp3:
+            got = [variants[0]['calls'][0]['html'], impl['calls'][0]['html'], variants[1]['calls'][0]['html']]
+            for g, e, nm in zip(got, exp3, ('drop', 'replace', 'escape')):
+                if O.squeeze(g) != O.squeeze(e):
+                    return ('C13/theorem-instance:C13_tag_document', 'policy %s: %r renders %r, the theorem gives %r' % (nm, case['calls'][0]['src'], g[:200], e[:200]))
         src = case['calls'][0]['src']
         if SENT in src:
             return None
